@@ -221,6 +221,8 @@ class Polarization(BaseState):
                 self.state, jnp.array([[1 / jnp.sqrt(2)], [-1j / jnp.sqrt(2)]])
             ):
                 self.state = PolarizationLabel.L
+            else:
+                return
             self.expansion_level = ExpansionLevel.Label
 
     def extract(self, index: Union[int, Tuple[int, int]]) -> None:
